@@ -95,10 +95,30 @@ fn spell(l: &str) -> String {
 }
 
 /// how the invocation is written: 0, 1 = by path (`unic_langid::langid!(..)`), 2 = imported with `use` and
-/// invoked by its bare name, 3 = by path inside a closure that is passed to a generic function.
+/// invoked by its bare name, 3 = by path inside a closure that is passed to a generic function,
+/// 4 = as the initialiser of a `const` item, 5 = of a `static` item (the forms the crate documents:
+/// subtag macros, `langid!` / `langid_slice!` without variants; `und` is left out because the
+/// pinned expansion calls the non-const `Language::default()` for it).
 /// A function of the case itself (not of its index), so that a replay crate uses the same form.
 fn ctx_of(c: &MCase) -> u64 {
-    hash_str(&format!("{}|{:?}", c.mac, c.lits)) % 4
+    let k = hash_str(&format!("{}|{:?}", c.mac, c.lits)) % 6;
+    if k >= 4 && !const_ok(c) {
+        return k - 4;
+    }
+    k
+}
+
+fn const_ok(c: &MCase) -> bool {
+    if !c.expect_ok {
+        return false;
+    }
+    let plain = |l: &String| matches!(model::ref_langid(l.as_bytes()), Ok(m) if m.language.is_some() && m.variants.is_empty());
+    match c.mac.as_str() {
+        "lang" => c.lits.iter().all(|l| !l.eq_ignore_ascii_case("und")),
+        "script" | "region" | "variant" => true,
+        "langid" | "langid_slice" => c.lits.iter().all(plain),
+        _ => false,
+    }
 }
 
 fn invocation(c: &MCase) -> String {
@@ -116,12 +136,15 @@ fn invocation(c: &MCase) -> String {
 }
 
 /// (statement before the binding, wrapper prefix, wrapper suffix) of the invocation
-fn context(c: &MCase) -> (&'static str, &'static str, &'static str) {
+fn context(c: &MCase) -> (String, String, String) {
+    let ty = if c.mac == "langid_slice" { format!("&[{}]", ty_of(&c.mac)) } else { ty_of(&c.mac).to_string() };
     match ctx_of(c) {
-        2 => ("    use unic_langid::{lang, langid, langid_slice, langids, region, script, variant}; use unic_locale::{locale, locales};\n", "", ""),
+        2 => ("    use unic_langid::{lang, langid, langid_slice, langids, region, script, variant}; use unic_locale::{locale, locales};\n".into(), String::new(), String::new()),
         // (langid_slice! borrows a temporary array: it cannot be returned from a closure)
-        3 if c.mac != "langid_slice" => ("", "pass((|| (", ",)))().0"),
-        _ => ("", "", ""),
+        3 if c.mac != "langid_slice" => (String::new(), "pass((|| (".into(), ",)))().0".into()),
+        4 => (String::new(), format!("{{ const M: {ty} = ("), "); M }".into()),
+        5 => (String::new(), format!("{{ static M: {ty} = ("), "); M.clone() }".into()),
+        _ => (String::new(), String::new(), String::new()),
     }
 }
 
@@ -167,7 +190,7 @@ fn emit(cases: &[(usize, &MCase)], per_file: usize) -> Emitted {
             let mut body = String::new();
             if c.expect_ok {
                 let _ = writeln!(body, "pub fn c{i}() -> Result<(), String> {{");
-                body.push_str(pre);
+                body.push_str(&pre);
                 if is_list(&c.mac) {
                     if c.mac == "langid_slice" {
                         let _ = writeln!(body, "    let m: &[{ty}] =\n        {inv};");
@@ -187,7 +210,7 @@ fn emit(cases: &[(usize, &MCase)], per_file: usize) -> Emitted {
                 let _ = writeln!(body, "}}");
             } else {
                 let _ = writeln!(body, "pub fn c{i}() {{");
-                body.push_str(pre);
+                body.push_str(&pre);
                 let _ = writeln!(body, "    let _m =\n        {inv};");
                 let _ = writeln!(body, "}}");
             }
@@ -668,6 +691,7 @@ fn judge(cases: &[MCase], outcomes: &[Option<Outcome>], st: &mut Stats) {
             continue;
         };
         st.class(&format!("{}:{}", if c.expect_ok { "well-formed" } else { "ill-formed" }, c.mac));
+        st.class(["form: by path", "form: by path", "form: imported, bare name", "form: inside a closure passed to a generic function", "form: initialiser of a const item", "form: initialiser of a static item"][ctx_of(c) as usize]);
         if c.expect_ok {
             if nontrivial_ok(c) {
                 st.nontrivial(hash_str(&case().to_string()), case);
